@@ -113,3 +113,8 @@ pub fn agrees(got: f64, want: B, c: Ctx) -> bool {
     }
     (got - want.v).abs() <= want.tol(c)
 }
+
+/// NaN-aware closeness of two reported values (metamorphic relations)
+pub fn near(a: f64, b: f64, tol: f64) -> bool {
+    a == b || (a.is_nan() && b.is_nan()) || (a - b).abs() <= tol
+}
